@@ -194,13 +194,14 @@ namespace igris
 
         void erase(iterator first, iterator last)
         {
-            size_t sz = last - first;
-            for (size_t i = 0; i < sz; ++i)
-            {
-                igris::destructor(first + i);
-            }
-            std::move(last, end(), first);
-            m_size -= sz;
+            if (first == last)
+                return;
+
+            // Shift the tail down by assignment onto live elements, then
+            // destroy the moved-from elements left at the end.
+            iterator newend = std::move(last, end(), first);
+            igris::array_destructor(newend, end());
+            m_size = newend - begin();
         }
 
         void resize(size_t newsize)
